@@ -21,8 +21,14 @@ import (
 	"context"
 	"crypto/sha256"
 	"encoding/json"
+	"encoding/binary"
 	"fmt"
+	"go/ast"
+	"go/parser"
+	"go/printer"
+	"go/token"
 	"io"
+	"net"
 	"net/http"
 	"net/http/httptest"
 	"os"
@@ -93,6 +99,7 @@ type c12Op struct {
 	Src     string    `json:"src,omitempty"`
 	Uploads []c12Blob `json:"uploads,omitempty"` // upload: the blob; create: blobs the client uploads first
 	File    string    `json:"file,omitempty"`    // create: digest of the gguf file named in Files
+	Files   map[string]string `json:"files,omitempty"` // create from safetensors: file name -> digest (instead of File)
 	System  string    `json:"system,omitempty"`
 	Tmpl    string    `json:"tmpl,omitempty"`
 	// pull: what the (honest) registry serves
@@ -260,7 +267,11 @@ func c12RunOp(t *testing.T, op *c12Op) string {
 				return "upload-" + r
 			}
 		}
-		w := c12Call(s.CreateHandler, nil, c12JSON(api.CreateRequest{Model: op.Name, Files: map[string]string{"m.gguf": op.File},
+		files := map[string]string{"m.gguf": op.File}
+		if op.Files != nil {
+			files = op.Files
+		}
+		w := c12Call(s.CreateHandler, nil, c12JSON(api.CreateRequest{Model: op.Name, Files: files,
 			System: op.System, Template: op.Tmpl, Stream: &noStream}))
 		return c12Class(w.Code, w.Body.String())
 	case "copy":
@@ -282,6 +293,108 @@ func c12RunOp(t *testing.T, op *c12Op) string {
 		return res
 	}
 	return "err:badop"
+}
+
+// TestVerifC12Serve is the "live restart" child: the REAL Serve on an ephemeral port over $OLLAMA_MODELS (with the
+// in-memory honest registry of the op spec installed, so that the server can pull). The parent traces it.
+func TestVerifC12Serve(t *testing.T) {
+	spec := os.Getenv("VERIF_C12_SERVE")
+	if spec == "" {
+		t.Skip("serve mode only")
+	}
+	raw, err := os.ReadFile(spec)
+	if err != nil {
+		t.Fatal(err)
+	}
+	var op c12Op
+	if err := json.Unmarshal(raw, &op); err != nil {
+		t.Fatal(err)
+	}
+	http.DefaultTransport = &c12RT{op: &op}
+	ln, err := net.Listen("tcp", "127.0.0.1:0")
+	if err != nil {
+		t.Fatal(err)
+	}
+	if err := os.WriteFile(spec+".port", []byte(ln.Addr().String()), 0o644); err != nil {
+		t.Fatal(err)
+	}
+	err = Serve(ln) // returns only on a start-up error (the parent kills the process)
+	os.WriteFile(spec+".serve-error", []byte(fmt.Sprint(err)), 0o644)
+}
+
+// TestVerifC12Facts regenerates the source facts of Tie/C12.lean with go/ast: every call of the start-up store
+// repair in func Serve (server/routes.go) and of the call that starts serving, in source order, each with whether
+// it sits inside a `go` statement, a function literal or a `defer`, and the conditions of its enclosing ifs.
+func TestVerifC12Facts(t *testing.T) {
+	fset := token.NewFileSet()
+	f, err := parser.ParseFile(fset, "routes.go", nil, 0)
+	if err != nil {
+		t.Fatal(err)
+	}
+	show := func(n ast.Node) string {
+		var b bytes.Buffer
+		printer.Fprint(&b, fset, n)
+		return strings.Join(strings.Fields(b.String()), " ")
+	}
+	var lines []string
+	for _, d := range f.Decls {
+		fd, ok := d.(*ast.FuncDecl)
+		if !ok || fd.Name.Name != "Serve" || fd.Recv != nil {
+			continue
+		}
+		var walk func(n ast.Node, async bool, conds []string)
+		walk = func(n ast.Node, async bool, conds []string) {
+			switch x := n.(type) {
+			case nil:
+				return
+			case *ast.GoStmt:
+				walk(x.Call, true, conds)
+				return
+			case *ast.DeferStmt:
+				walk(x.Call, true, conds)
+				return
+			case *ast.FuncLit:
+				walk(x.Body, true, conds)
+				return
+			case *ast.IfStmt:
+				cond := show(x.Cond)
+				if x.Init != nil {
+					walk(x.Init, async, conds)
+					cond = show(x.Init) + "; " + cond
+				}
+				walk(x.Cond, async, conds)
+				walk(x.Body, async, append(append([]string{}, conds...), "if "+cond))
+				if x.Else != nil {
+					walk(x.Else, async, append(append([]string{}, conds...), "else-of "+cond))
+				}
+				return
+			case *ast.CallExpr:
+				name := show(x.Fun)
+				switch name {
+				case "fixBlobs", "Manifests", "PruneLayers", "PruneDirectory", "srvr.Serve", "http.Serve", "envconfig.NoPrune":
+					lines = append(lines, fmt.Sprintf("%s\t%v\t%s", name, async, strings.Join(conds, " && ")))
+				}
+			}
+			// generic descent, in source order
+			var kids []ast.Node
+			ast.Inspect(n, func(c ast.Node) bool {
+				if c == n {
+					return true
+				}
+				if c != nil {
+					kids = append(kids, c)
+				}
+				return false
+			})
+			for _, k := range kids {
+				walk(k, async, conds)
+			}
+		}
+		walk(fd.Body, false, nil)
+	}
+	if err := os.WriteFile(filepath.Join(zzverif.OutDir(), "facts.txt"), []byte(strings.Join(lines, "\n")+"\n"), 0o644); err != nil {
+		t.Fatal(err)
+	}
 }
 
 // TestVerifC12Child is the child mode: run one op on $OLLAMA_MODELS, write the outcome.
@@ -456,7 +569,22 @@ func c12Decode(pid, tid int, r *syscall.PtraceRegs, store string) *c12Sys {
 // c12Trace runs argv under the tracer. killAt = 0: run to completion. killAt = N > 0: SIGKILL the
 // process at the entry of its N-th store syscall. Returns the completed store syscalls, whether
 // the kill happened, and the number of store syscalls entered.
+// c12TraceOpts: scheduling of a traced process beyond "kill at the N-th store syscall" (live restart):
+// the unlink of holdUnlink is HELD at its entry until a stat of that path by another thread has been seen
+// (or maxHold has passed); closing stop kills the process.
+type c12TraceOpts struct {
+	holdUnlink string
+	maxHold    time.Duration
+	stop       <-chan struct{}
+	heldFor    time.Duration // out: how long the unlink was held
+	statSeen   bool          // out: the stat arrived while the unlink was held
+}
+
 func c12Trace(argv, env []string, store string, killAt int, logPath string) (evs []c12Sys, killed bool, entered int, err error) {
+	return c12TraceX(argv, env, store, killAt, logPath, nil)
+}
+
+func c12TraceX(argv, env []string, store string, killAt int, logPath string, opts *c12TraceOpts) (evs []c12Sys, killed bool, entered int, err error) {
 	runtime.LockOSThread()
 	defer runtime.UnlockOSThread()
 	logf, err := os.Create(logPath)
@@ -490,10 +618,34 @@ func c12Trace(argv, env []string, store string, killAt int, logPath string) (evs
 	inSys := map[int]bool{}
 	pending := map[int]*c12Sys{}
 	known := map[int]bool{pid: true}
+	heldTid, heldSince, stopped := 0, time.Time{}, false
 	for {
-		wpid, werr := syscall.Wait4(-1, &ws, syscall.WALL|c12WNoThread, nil)
+		flags := syscall.WALL | c12WNoThread
+		if opts != nil {
+			flags |= syscall.WNOHANG
+		}
+		wpid, werr := syscall.Wait4(-1, &ws, flags, nil)
 		if werr == syscall.EINTR {
 			continue
+		}
+		if opts != nil {
+			if heldTid != 0 && (opts.statSeen || time.Since(heldSince) > opts.maxHold) {
+				opts.heldFor = time.Since(heldSince)
+				syscall.PtraceSyscall(heldTid, 0)
+				heldTid = 0
+			}
+			if !stopped {
+				select {
+				case <-opts.stop:
+					stopped, killed = true, true
+					syscall.Kill(pid, syscall.SIGKILL)
+				default:
+				}
+			}
+			if werr == nil && wpid == 0 {
+				time.Sleep(200 * time.Microsecond)
+				continue
+			}
 		}
 		if werr != nil { // ECHILD: everything gone
 			break
@@ -526,6 +678,20 @@ func c12Trace(argv, env []string, store string, killAt int, logPath string) (evs
 				inSys[wpid] = true
 				var regs syscall.PtraceRegs
 				e := syscall.PtraceGetRegs(wpid, &regs)
+				if e == nil && opts != nil && opts.holdUnlink != "" {
+					nr := int(regs.Orig_rax)
+					switch {
+					case (nr == 262 || nr == 332) && heldTid != 0: // newfstatat / statx
+						if c12ReadStr(wpid, uintptr(regs.Rsi)) == opts.holdUnlink {
+							opts.statSeen = true
+						}
+					case nr == 263 && heldTid == 0 && opts.heldFor == 0 && !opts.statSeen:
+						if c12ReadStr(wpid, uintptr(regs.Rsi)) == opts.holdUnlink {
+							heldTid, heldSince = wpid, time.Now()
+							continue // not resumed: the thread stays at the entry of unlinkat
+						}
+					}
+				}
 				if os.Getenv("VERIF_C12_DEBUG") != "" {
 					fmt.Fprintf(os.Stderr, "tid=%d nr=%d err=%v\n", wpid, int(regs.Orig_rax), e)
 				}
@@ -771,6 +937,13 @@ func c12State(store string) []string {
 	c12WalkLogical(store, func(p string, fi os.FileInfo) {
 		func() error {
 		cp := c.path(p)
+		if !fi.Mode().IsRegular() { // FIFO etc.: an entry without content
+			if strings.HasPrefix(cp, "T:") {
+				cp = "T:*"
+			}
+			out = append(out, cp+"=raw:-")
+			return nil
+		}
 		if fi.Size() > 1<<20 { // summarise: length + hash of a 4 KiB sample every MiB
 			h := sha256.New()
 			if f, err := os.Open(p); err == nil {
@@ -972,6 +1145,9 @@ func c12CopyTree(src, dst string) {
 			}
 			return os.Symlink(target, q)
 		}
+		if fi.Mode()&os.ModeNamedPipe != 0 {
+			return syscall.Mkfifo(q, 0o644)
+		}
 		data, err := os.ReadFile(p)
 		if err != nil {
 			panic(err)
@@ -1147,6 +1323,78 @@ func c12ReadableListing(store string) string {
 	}
 	sort.Strings(items)
 	return strings.Join(items, " ")
+}
+
+// c12LiveRestart starts the REAL Serve on the store in a traced child process and repeats the operation through
+// the HTTP API as soon as the listener exists (the connection waits in the backlog until Serve accepts). The tracer
+// holds the start-up prune at the unlink of `leftover` (a blob the crash left unreferenced and the repeated operation
+// would reuse) until the request's existence check of that blob has been seen or maxHold has passed: if Serve runs
+// the repair BEFORE it serves (as it must), no request is handled while the prune is held, the hold times out, the
+// prune completes and the operation starts from a clean store; if the repair runs concurrently with serving, the
+// operation sees the blob, the prune then removes it, and the monitors report the missing layer.
+func c12LiveRestart(t *testing.T, self string, op *c12Op, dir, leftover string) (result string, startErr string, opts *c12TraceOpts) {
+	specPath := dir + ".serve.json"
+	raw, _ := json.Marshal(op)
+	os.WriteFile(specPath, raw, 0o644)
+	os.Remove(specPath + ".port")
+	os.Remove(specPath + ".serve-error")
+	var env []string
+	for _, kv := range os.Environ() {
+		if !strings.HasPrefix(kv, "OLLAMA_") && !strings.HasPrefix(kv, "VERIF_C12_") && !strings.HasPrefix(kv, "GOMAXPROCS=") {
+			env = append(env, kv)
+		}
+	}
+	env = append(env, "OLLAMA_MODELS="+dir, "VERIF_C12_SERVE="+specPath, "OLLAMA_HOST=127.0.0.1:0")
+	if op.NoPrune {
+		env = append(env, "OLLAMA_NOPRUNE=1")
+	}
+	stop := make(chan struct{})
+	opts = &c12TraceOpts{holdUnlink: leftover, maxHold: 3 * time.Second, stop: stop}
+	resCh := make(chan string, 1)
+	go func() {
+		defer close(stop)
+		deadline := time.Now().Add(60 * time.Second)
+		addr := ""
+		for time.Now().Before(deadline) {
+			if b, err := os.ReadFile(specPath + ".port"); err == nil && len(b) > 0 {
+				addr = string(b)
+				break
+			}
+			if _, err := os.Stat(specPath + ".serve-error"); err == nil {
+				resCh <- "err:startup"
+				return
+			}
+			time.Sleep(2 * time.Millisecond)
+		}
+		if addr == "" {
+			resCh <- "err:noport"
+			return
+		}
+		body := fmt.Sprintf(`{"model":%q,"stream":false}`, op.Name)
+		cl := &http.Client{Timeout: 60 * time.Second, Transport: &http.Transport{}}
+		resp, err := cl.Post("http://"+addr+"/api/pull", "application/json", strings.NewReader(body))
+		if err != nil {
+			if _, e2 := os.Stat(specPath + ".serve-error"); e2 == nil {
+				resCh <- "err:startup"
+				return
+			}
+			resCh <- "err:http:" + err.Error()
+			return
+		}
+		b, _ := io.ReadAll(resp.Body)
+		resp.Body.Close()
+		resCh <- c12Class(resp.StatusCode, string(b))
+	}()
+	c12TraceX([]string{self, "-test.run=^TestVerifC12Serve$", "-test.count=1", "-test.timeout=120s"}, env, dir, 0, dir+".serve.log", opts)
+	select {
+	case result = <-resCh:
+	default:
+		result = "err:server-exited"
+	}
+	if b, err := os.ReadFile(specPath + ".serve-error"); err == nil {
+		startErr = string(b)
+	}
+	return result, startErr, opts
 }
 
 func TestVerifC12(t *testing.T) {
@@ -1349,6 +1597,19 @@ func TestVerifC12(t *testing.T) {
 			must(os.Rename(filepath.Join(dir, "manifests"), filepath.Join(dir, "linked", "manifests")))
 			must(os.Symlink("linked/manifests", filepath.Join(dir, "manifests")))
 		})
+		// S9: directories and non-regular entries inside blobs/ (what a crashed conversion, a user or a backup tool
+		// may leave): an empty directory, a non-empty directory, a symlink to a file, a dangling symlink, a FIFO
+		shape("S9", func(dir string) {
+			b := filepath.Join(dir, "blobs")
+			must(os.MkdirAll(filepath.Join(b, "emptydir"), 0o755))
+			must(os.MkdirAll(filepath.Join(b, "ollama-safetensors123", "sub"), 0o755))
+			must(os.WriteFile(filepath.Join(b, "ollama-safetensors123", "fp16"), []byte("half a conversion"), 0o644))
+			must(os.WriteFile(filepath.Join(b, "ollama-safetensors123", "sub", "x"), []byte("x"), 0o644))
+			must(os.WriteFile(filepath.Join(dir, "history"), []byte("outside"), 0o644))
+			must(os.Symlink("../history", filepath.Join(b, "link-to-file")))
+			must(os.Symlink("../nowhere", filepath.Join(b, "dangling-link")))
+			must(syscall.Mkfifo(filepath.Join(b, "fifo"), 0o644))
+		})
 		// S8[x]: the models path contains a glob metacharacter
 		shape("S8[x]", func(dir string) {})
 
@@ -1386,6 +1647,23 @@ func TestVerifC12(t *testing.T) {
 			Involved     []string
 			NoL1         bool // multi-part pull: outside the Lean model; L2 monitors only, sampled body writes
 			Reduced      bool // kill points: non-body store syscalls + the middle of each run of body writes only
+			Live         bool // restart = the REAL Serve in a traced child, the operation repeated through its HTTP API
+			MaxPoints    int  // sample the kill points evenly down to this many (0 = all)
+		}
+		// create from safetensors (tiny fixture: empty tensor table, config.json, tokenizer.json): the converter's
+		// scratch directory, links, fp16 file; kill points inside the conversion
+		var stBuf bytes.Buffer
+		binary.Write(&stBuf, binary.LittleEndian, int64(len("{}")))
+		stBuf.WriteString("{}")
+		stFiles := map[string][]byte{
+			"model.safetensors": stBuf.Bytes(),
+			"config.json":       []byte(`{"architectures": ["LlamaForCausalLM"], "vocab_size": 8}`),
+			"tokenizer.json": []byte(`{"version": "1.0", "truncation": null, "padding": null, "added_tokens": [{"id": 0, "content": "<|endoftext|>", "single_word": false, "lstrip": false, "rstrip": false, "normalized": false, "special": true}]}`),
+		}
+		opCreateST := c12Op{Kind: "create", Name: "st", Files: map[string]string{}, System: "from safetensors", Chunk: 64}
+		for _, name := range []string{"config.json", "model.safetensors", "tokenizer.json"} {
+			opCreateST.Uploads = append(opCreateST.Uploads, c12Blobs(stFiles[name])...)
+			opCreateST.Files[name] = c12Digest(stFiles[name])
 		}
 		// the same operations under OLLAMA_NOPRUNE=1 (no start-up prune, replaced layers are kept)
 		np := func(op c12Op) *c12Op { op.NoPrune = true; return &op }
@@ -1405,27 +1683,31 @@ func TestVerifC12(t *testing.T) {
 		}
 		inv := func(n string) []string { return []string{c12Lib + n + "/latest"} }
 		scen := []scenario{
-			{"S1", "upload-new", &c12Op{Kind: "upload", Uploads: c12Blobs(g2), Chunk: chunk}, nil, false, false},
-			{"S1", "create-new", &opCreateNew, inv("d"), false, false},
-			{"S1", "create-replace", &opCreateRepl, inv("a"), false, false},
-			{"S1", "copy-new", &opCopyNew, inv("e"), false, false},
-			{"S1", "copy-over", &opCopyOver, inv("c"), false, false},
-			{"S1", "delete-shared", &opDelShared, inv("a"), false, false},
-			{"S1", "delete-unshared", &opDelUnshared, inv("c"), false, false},
-			{"S1", "pull-new", &opPullNew, inv("f"), false, false},
-			{"S1", "pull-update", &opPullUpd, inv("c"), false, false},
-			{"S2", "pull-new", &opPullNew, inv("f"), false, false},
-			{"S2", "create-new", &opCreateNew, inv("d"), false, false},
-			{"S3", "pull-new", &opPullNew, inv("f"), false, false},
-			{"S1", "pull-new-noprune", np(opPullNew), inv("f"), false, false},
-			{"S1", "pull-update-noprune", np(opPullUpd), inv("c"), false, false},
-			{"S1", "create-replace-noprune", np(opCreateRepl), inv("a"), false, false},
+			{Store: "S1", Label: "upload-new", Op: &c12Op{Kind: "upload", Uploads: c12Blobs(g2), Chunk: chunk}, Involved: nil},
+			{Store: "S1", Label: "create-new", Op: &opCreateNew, Involved: inv("d")},
+			{Store: "S1", Label: "create-replace", Op: &opCreateRepl, Involved: inv("a")},
+			{Store: "S1", Label: "copy-new", Op: &opCopyNew, Involved: inv("e")},
+			{Store: "S1", Label: "copy-over", Op: &opCopyOver, Involved: inv("c")},
+			{Store: "S1", Label: "delete-shared", Op: &opDelShared, Involved: inv("a")},
+			{Store: "S1", Label: "delete-unshared", Op: &opDelUnshared, Involved: inv("c")},
+			{Store: "S1", Label: "pull-new", Op: &opPullNew, Involved: inv("f")},
+			{Store: "S1", Label: "pull-update", Op: &opPullUpd, Involved: inv("c")},
+			{Store: "S2", Label: "pull-new", Op: &opPullNew, Involved: inv("f")},
+			{Store: "S2", Label: "create-new", Op: &opCreateNew, Involved: inv("d")},
+			{Store: "S3", Label: "pull-new", Op: &opPullNew, Involved: inv("f")},
+			{Store: "S1", Label: "pull-new-noprune", Op: np(opPullNew), Involved: inv("f")},
+			{Store: "S1", Label: "pull-update-noprune", Op: np(opPullUpd), Involved: inv("c")},
+			{Store: "S1", Label: "create-replace-noprune", Op: np(opCreateRepl), Involved: inv("a")},
 		}
 		scen = append(scen,
 			scenario{Store: "S5", Label: "pull-new", Op: &opPullNew, Involved: inv("f")},
 			scenario{Store: "S5", Label: "delete-shared", Op: &opDelShared, Involved: inv("a")},
 			scenario{Store: "S6", Label: "pull-new", Op: &opPullNew, Involved: inv("f")},
 			scenario{Store: "S8[x]", Label: "copy-new", Op: &opCopyNew, Involved: inv("e"), NoL1: true},
+			scenario{Store: "S9", Label: "pull-new", Op: &opPullNew, Involved: inv("f")},
+			scenario{Store: "S9", Label: "create-new", Op: &opCreateNew, Involved: inv("d")},
+			scenario{Store: "S1", Label: "create-safetensors", Op: &opCreateST, Involved: inv("st"), NoL1: true, MaxPoints: 40},
+			scenario{Store: "S1", Label: "pull-new-live", Op: &opPullNew, Involved: inv("f"), NoL1: true, Live: true},
 		)
 		if opPullBig != nil {
 			scen = append(scen, scenario{Store: "S1", Label: "pull-multipart-noprune", Op: opPullBig, Involved: inv("g"), NoL1: true})
@@ -1444,15 +1726,15 @@ func TestVerifC12(t *testing.T) {
 				scenario{Store: "S7", Label: "create-replace", Op: &opCreateRepl, Involved: inv("a")},
 				scenario{Store: "S7", Label: "delete-unshared", Op: &opDelUnshared, Involved: inv("c")},
 				scenario{Store: "S8[x]", Label: "pull-new", Op: &opPullNew, Involved: inv("f"), NoL1: true},
-				scenario{"S1", "create-share", &opCreateShare, inv("d"), false, false},
-				scenario{"S2", "pull-update", &opPullUpd, inv("c"), false, false},
-				scenario{"S2", "create-replace", &opCreateRepl, inv("a"), false, false},
-				scenario{"S2", "copy-over", &opCopyOver, inv("c"), false, false},
-				scenario{"S2", "delete-unshared", &opDelUnshared, inv("c"), false, false},
-				scenario{"S2", "delete-shared", &opDelShared, inv("a"), false, false},
-				scenario{"S3", "pull-update", &opPullUpd, inv("c"), false, false},
-				scenario{"S4", "pull-new", &opPullNew, inv("f"), false, false},
-				scenario{"S4", "pull-update", &opPullUpd, inv("c"), false, false},
+				scenario{Store: "S1", Label: "create-share", Op: &opCreateShare, Involved: inv("d")},
+				scenario{Store: "S2", Label: "pull-update", Op: &opPullUpd, Involved: inv("c")},
+				scenario{Store: "S2", Label: "create-replace", Op: &opCreateRepl, Involved: inv("a")},
+				scenario{Store: "S2", Label: "copy-over", Op: &opCopyOver, Involved: inv("c")},
+				scenario{Store: "S2", Label: "delete-unshared", Op: &opDelUnshared, Involved: inv("c")},
+				scenario{Store: "S2", Label: "delete-shared", Op: &opDelShared, Involved: inv("a")},
+				scenario{Store: "S3", Label: "pull-update", Op: &opPullUpd, Involved: inv("c")},
+				scenario{Store: "S4", Label: "pull-new", Op: &opPullNew, Involved: inv("f")},
+				scenario{Store: "S4", Label: "pull-update", Op: &opPullUpd, Involved: inv("c")},
 			)
 		}
 
@@ -1589,7 +1871,25 @@ func TestVerifC12(t *testing.T) {
 				}
 				points = append(points, n)
 			}
-			if sc.NoL1 {
+			if sc.Live {
+				// the kill that leaves a downloaded, verified, unreferenced layer: right after the first rename of a
+				// -partial file into place
+				points = nil
+				for i := range per {
+					if len(per[i]) > 0 && strings.HasPrefix(per[i][0], "mv P:") {
+						points = []int{evs[i].Idx + 1}
+						break
+					}
+				}
+			}
+			if sc.MaxPoints > 0 && len(points) > sc.MaxPoints {
+				var sel []int
+				for i := 0; i < sc.MaxPoints; i++ {
+					sel = append(sel, points[i*len(points)/sc.MaxPoints])
+				}
+				points = sel
+			}
+			if sc.NoL1 && sc.Op.Kind == "pull" && !sc.Live {
 				nrec := 0
 				for _, e := range effs {
 					if strings.HasPrefix(e, "mv T:") && strings.Contains(e, " R:") || strings.HasPrefix(e, "put R:") {
@@ -1640,6 +1940,39 @@ func TestVerifC12(t *testing.T) {
 					for _, b := range bad {
 						out.L2("debris-inconsistent", caseLine, "window="+window(n)+" "+b)
 					}
+				}
+				if sc.Live {
+					// ---- live restart: the real Serve, the operation repeated through its API at once
+					leftover := ""
+					for _, e := range effs {
+						if f := strings.Fields(e); f[0] == "mv" && strings.HasPrefix(f[1], "P:") {
+							leftover = filepath.Join(dir, "blobs", "sha256-"+strings.TrimPrefix(f[2], "B:"))
+							break
+						}
+					}
+					res2, startErr, o := c12LiveRestart(t, self, sc.Op, dir, leftover)
+					out.Count("live_restarts")
+					out.Add("live_prune_held_ms", int(o.heldFor/time.Millisecond))
+					if startErr != "" {
+						out.L2("restart-failed", caseLine, "Serve returned: "+startErr)
+					}
+					if o.statSeen {
+						out.L2("served-before-repair", caseLine, "the repeated operation's existence check of the leftover blob was executed while the start-up prune had not finished: Serve handles requests before its store repair is complete")
+					}
+					if res2 != "ok" {
+						out.L2("rerun-failed", caseLine, "live restart: result="+res2)
+					} else {
+						readable2, _ := c12Walk(dir)
+						for _, b := range c12CheckIntact(dir, readable2) {
+							out.L2("dangling-layer", caseLine, "after live restart + rerun: "+b)
+						}
+						if got := c12ReadableListing(dir); got != fullReadable {
+							out.L2("rerun-diverged", caseLine, fmt.Sprintf("live restart: readable manifests after rerun differ from the uninterrupted run: got [%s] want [%s]", got, fullReadable))
+						}
+					}
+					out.Count("rerun_" + strings.SplitN(res2, ":", 3)[0])
+					os.RemoveAll(dir)
+					continue
 				}
 				// ---- restart (the real start-up sequence) and the L2 walk
 				t.Setenv("OLLAMA_MODELS", dir)
